@@ -1447,6 +1447,10 @@ for _pid in ["C01", "C02", "C03", "C04", "C05", "C06", "C07", "C08", "C09", "C10
        _generic.hoist_arguments)
     ok(_pid, "positional arguments of calls to package functions / self methods passed by keyword",
        _generic.keyword_arguments)
+    ok(_pid, "single-use temporaries written out at their use (t = e; f(t) -> f(e))",
+       _generic.inline_temporaries)
+    ok(_pid, "tuple unpacking of call results replaced by indexing a temporary",
+       _generic.index_unpacking)
     ok(_pid, "temporaries, keyword arguments, renaming, branch flipping, comparison swapping and "
              "keyword reversal combined", _generic.all_rewrites)
 
